@@ -241,6 +241,55 @@ pub enum Stall {
     InCall(J),
     /// a thread is stuck outside any observed call: harness error
     Harness(J),
+    /// the process is being aborted (SIGABRT: stack exhaustion through unbounded recursion, allocation failure,
+    /// abort()) by a thread that is inside an observed call: the call "does not return normally"
+    AbortInCall(J),
+    /// the same outside any observed call: harness error
+    AbortHarness(J),
+}
+
+// ---- abort trap -------------------------------------------------------------------------------------------
+// `catch_unwind` sees panics only. Unbounded recursion ends in the runtime's stack-overflow handler, which
+// calls abort(); so does an allocation failure. The SIGABRT handler below does the minimum that is safe on the
+// faulting thread's (possibly alternate, small) stack: it publishes the thread id and parks. The watchdog thread,
+// on its own stack, renders that thread's current case and ends the process through `on_stall`.
+static FATAL_TID: AtomicU32 = AtomicU32::new(0);
+
+#[cfg(all(target_os = "linux", not(miri)))]
+mod sig {
+    use std::sync::atomic::Ordering;
+    extern "C" {
+        fn signal(signum: i32, handler: usize) -> usize;
+        fn syscall(num: i64, ...) -> i64;
+        fn usleep(usec: u32) -> i32;
+        fn _exit(code: i32) -> !;
+    }
+    const SIGABRT: i32 = 6;
+    #[cfg(target_arch = "x86_64")]
+    const SYS_GETTID: i64 = 186;
+    #[cfg(target_arch = "aarch64")]
+    const SYS_GETTID: i64 = 178;
+    extern "C" fn on_abort(_sig: i32) {
+        unsafe {
+            let tid = syscall(SYS_GETTID) as u32;
+            // first faulting thread wins; everybody who gets here parks
+            let _ = super::FATAL_TID.compare_exchange(0, tid.max(1), Ordering::SeqCst, Ordering::SeqCst);
+            for _ in 0..600 {
+                usleep(100_000);
+            }
+            // nobody came: die the way we would have (the runner then reports the tier as inconclusive)
+            _exit(134);
+        }
+    }
+    pub fn install() {
+        unsafe {
+            signal(SIGABRT, on_abort as usize);
+        }
+    }
+}
+#[cfg(not(all(target_os = "linux", not(miri))))]
+mod sig {
+    pub fn install() {}
 }
 
 /// Start the watchdog. `on_stall` must not return (it ends the process).
@@ -248,11 +297,39 @@ pub fn arm(on_stall: impl Fn(Stall) + Send + 'static) {
     if cfg!(miri) || ARMED.swap(true, Ordering::SeqCst) {
         return;
     }
+    sig::install();
     std::thread::spawn(move || {
         // per slot: (last seq seen, thread CPU when it last moved)
         let mut seen: Vec<(u64, f64)> = vec![];
+        let mut tick = 0u32;
         loop {
-            std::thread::sleep(std::time::Duration::from_millis(500));
+            std::thread::sleep(std::time::Duration::from_millis(100));
+            let fatal = FATAL_TID.load(Ordering::SeqCst);
+            if fatal != 0 {
+                // a thread is parked in the SIGABRT handler: which case was it executing, inside an observed call?
+                let slots: Vec<Arc<Slot>> = match SLOTS.try_lock() {
+                    Ok(g) => g.clone(),
+                    Err(_) => vec![],
+                };
+                let mut found = None;
+                for s in &slots {
+                    if s.tid.load(Ordering::Relaxed) == fatal {
+                        let case = s.stack.try_lock().ok().and_then(|g| g.last().map(render));
+                        found = Some((case, s.depth.load(Ordering::Relaxed) > 0));
+                    }
+                }
+                HANG.store(true, Ordering::SeqCst);
+                match found {
+                    Some((Some(case), true)) => on_stall(Stall::AbortInCall(case)),
+                    Some((case, _)) => on_stall(Stall::AbortHarness(case.unwrap_or_else(|| J::obj().set("kind", "none")))),
+                    None => on_stall(Stall::AbortHarness(J::obj().set("kind", "none").set("note", "aborting thread is not a worker"))),
+                }
+                return;
+            }
+            tick += 1;
+            if tick % 5 != 0 {
+                continue;
+            }
             let slots: Vec<Arc<Slot>> = SLOTS.lock().map(|g| g.clone()).unwrap_or_default();
             for (i, s) in slots.iter().enumerate() {
                 let tid = s.tid.load(Ordering::Relaxed);
